@@ -126,6 +126,9 @@ class Model:
         if v == "USER":
             self.user, self.logged = None, False
             self.rename_from = None
+            if arg in getattr(self, "held", ()):
+                # the account's connection limit is used up by other sessions: refused, the session stays unidentified
+                return Expect(["530"], note="account at its connection limit")
             if arg in self.users and arg is not None:
                 self.user = arg
                 self.cwd = self.home
